@@ -107,7 +107,7 @@ func (s decodeStream) Rule() string {
 	if s.mode == "valid" {
 		return "typed requests of the seven operations (edge-biased ids, binary strings incl. >127/>65535 bytes, 0..3 attrs/changes/values, 0..4 controls of all nine kinds in random order, grammar-generated filters; one case in ten is a request gldap must refuse: compare, modifyDN, abandon, unassigned or response application tags, or a bind with version != 3) encoded by the harness's own RFC 4511 encoder, with wire-form variations; one frame in four is read as the third request of its connection; expectation computed from the typed request; non-trivial = decoded ok, distinct by frame bytes"
 	}
-	return "single/double structured mutations of canonical requests (node kind replacement, child delete/duplicate/swap, list truncate/extend, class/tag/constructed flips, content damage, length-octet corruption) plus random byte streams; one frame in four is read as the THIRD request of its connection, after a well-formed bind and search; non-trivial = frame parses as BER (reaches gldap's own decoder), distinct by frame bytes"
+	return "single/double structured mutations of canonical requests (node kind replacement, child delete/duplicate/swap, list truncate/extend, class/tag/constructed flips, content damage, length-octet corruption) plus random byte streams and search requests whose filter is a hostile element tree (filter tags in any class, wrong shapes, dnAttributes flags of zero to two octets); one frame in four is read as the THIRD request of its connection, after a well-formed bind and search; non-trivial = frame parses as BER (reaches gldap's own decoder), distinct by frame bytes"
 }
 
 // filterArg computes what go-ldap's DecompileFilter yields on the filter position.
@@ -227,6 +227,15 @@ func (s decodeStream) Generate(rng *rand.Rand, n int, thorough bool) []Case {
 				cs = append(cs, decodeCase(f, "", "hostile"))
 				continue
 			}
+			if rng.Intn(8) == 0 {
+				// a search request, well-formed but for its filter: an element tree over the filter tags (and a few that are
+				// none) in any class, primitive or constructed where the other is expected, children missing, surplus or of
+				// the wrong kind, flags of zero, one (any octet) or two octets
+				f := Seq(Int(2, genID(rng)), C(1, 3, Oct(genStr(rng)), Int(10, 2), Int(10, 0), Int(2, 0), Int(2, 0), Bool(false),
+					hostileFilter(rng, 0), Seq(Oct("cn")))).Ser()
+				cs = append(cs, decodeCase(f, "", "hostile"))
+				continue
+			}
 			f := genFrame(rng)
 			if declaresHugeLength(f) {
 				continue
@@ -342,4 +351,60 @@ func (s decodeStream) Class(c Case, impl string) (string, bool) {
 		return "unparseable/" + k, false
 	}
 	return "parsed/" + k, true
+}
+
+// hostileFilter: a tree shaped like a search filter, more or less.
+func hostileFilter(rng *rand.Rand, depth int) *N {
+	cls := []int{2, 2, 2, 2, 0, 1, 3}[rng.Intn(7)]
+	tag := []int{0, 1, 2, 3, 4, 5, 6, 7, 8, 9, 9, 9, 10, 16, 31, 4}[rng.Intn(16)]
+	str := func() *N {
+		switch rng.Intn(8) {
+		case 0:
+			return Seq(Oct(genStr(rng)))
+		case 1:
+			return P(2, rng.Intn(5), []byte(genStr(rng)))
+		case 2:
+			return P(0, 1, []byte{byte(rng.Intn(256))})
+		}
+		return Oct([]string{"cn", "uid", "a(b)*c\\", "\x00\xff\x80x", "", "member"}[rng.Intn(6)])
+	}
+	if rng.Intn(6) == 0 {
+		return P(cls, tag, []byte(genStr(rng)))
+	}
+	var kids []*N
+	switch {
+	case tag <= 2 && depth < 3:
+		for i := rng.Intn(4); i > 0; i-- {
+			kids = append(kids, hostileFilter(rng, depth+1))
+		}
+	case tag == 4:
+		var parts []*N
+		for i := rng.Intn(5); i > 0; i-- {
+			parts = append(parts, P([]int{2, 2, 0}[rng.Intn(3)], rng.Intn(4), []byte([]string{"a", "", "x*y", "(", "\xc3\xa9"}[rng.Intn(5)])))
+		}
+		kids = []*N{str(), Seq(parts...)}
+		if rng.Intn(5) == 0 {
+			kids = kids[:rng.Intn(2)]
+		} else if rng.Intn(6) == 0 {
+			kids[1] = Oct("ab")
+		}
+	case tag == 9:
+		for i := rng.Intn(6); i > 0; i-- {
+			t := 1 + rng.Intn(5)
+			switch {
+			case t == 4 && rng.Intn(3) > 0:
+				flag := [][]byte{{0xff}, {0x01}, {0x00}, {0x80}, {}, {0x01, 0x01}, {0xff, 0x00}}[rng.Intn(7)]
+				kids = append(kids, P([]int{2, 2, 2, 0, 1}[rng.Intn(5)], 4, flag))
+			case t == 4:
+				kids = append(kids, C(2, 4, P(0, 1, []byte{0xff})))
+			default:
+				kids = append(kids, P([]int{2, 2, 2, 0}[rng.Intn(4)], t, []byte([]string{"cn", "2.5.13.2", "", "v(1)", "caseIgnoreMatch"}[rng.Intn(5)])))
+			}
+		}
+	default:
+		for i := rng.Intn(4); i > 0; i-- {
+			kids = append(kids, str())
+		}
+	}
+	return C(cls, tag, kids...)
 }
